@@ -154,6 +154,7 @@ type profile struct {
 	// SPEC.md §4 (zero in the profiles that predate it, which draw exactly as before)
 	queryPct    int  // share of `query` ops among the ops, in percent
 	genesisTail bool // end the history with [prep] export validate jsonrt reimport
+	modsvcBind  bool // prelude: define the reserved service, fund the module's provider and bind it through the keeper
 	restartPct  int  // share of histories with one or two zero-height restarts (op `restart`) somewhere inside
 	std20Pct    int  // share of histories in which every address is 20 bytes long (what standard clients can produce)
 }
@@ -231,6 +232,18 @@ func init() {
 	queries := *mixed
 	queries.name, queries.queryPct, queries.std20Pct = "queries", 20, 40 // with the twins that follow, about 30% of the ops
 	profiles["queries"] = &queries
+
+	// `modsvc`: the `money` profile on a chain whose application registers a module service, binds its provider
+	// through the keeper (what the application's genesis does) and whose users call it (op `modcall`)
+	money := profiles["money"]
+	modsvc := *money
+	modsvc.name, modsvc.modsvcPct, modsvc.modsvcBind = "modsvc", 100, true
+	modsvc.weights = map[string]int{}
+	for k, w := range money.weights {
+		modsvc.weights[k] = w
+	}
+	modsvc.weights["modcall"] = 16
+	profiles["modsvc"] = &modsvc
 
 	genesis := *mixed
 	genesis.name, genesis.genesisTail, genesis.std20Pct = "genesis", true, 60
@@ -646,6 +659,7 @@ var opKinds = []opKind{
 	{"enable", false, (*gen).opEnable},
 	{"refund", false, (*gen).opRefund},
 	{"call", false, (*gen).opCall},
+	{"modcall", false, (*gen).opModCall},
 	{"respond", false, (*gen).opRespond},
 	{"pause", false, (*gen).opPause},
 	{"start", false, (*gen).opStart},
@@ -1089,6 +1103,57 @@ func (g *gen) opCall(adv bool) (*draft, bool) {
 	d := newDraft("call")
 	if !g.callFields(d, adv) {
 		return nil, false
+	}
+	return d, true
+}
+
+// opModCall: MsgCallService for the service name reserved by the registered module service (profile `modsvc` only).
+// The handler ignores the providers, timeout and repetition fields of the message (they only have to pass
+// ValidateBasic); what matters is the consumer, its funds, the fee cap against the price of the module's binding,
+// the state of that binding, and what the module answers.
+func (g *gen) opModCall(adv bool) (*draft, bool) {
+	if !g.hp.modsvc || !g.v.defined(reservedSvc) {
+		return nil, false
+	}
+	price := big.NewInt(1)
+	if _, ok := g.v.binding(reservedSvc, modSvcProvider); ok {
+		if p := g.sim.k.GetPricing(g.sim.ctx, reservedSvc, modSvcProvider).Price.AmountOf(stakeDenom).BigInt(); p.Sign() > 0 && p.BitLen() < 62 {
+			price = p
+		}
+	}
+	capAmt := new(big.Int).Set(price)
+	switch g.r.Intn(7) {
+	case 0:
+		capAmt = big.NewInt([]int64{1, 2, 5, 10}[g.r.Intn(4)])
+	case 1:
+		capAmt.Mul(capAmt, big.NewInt(2))
+	case 2:
+		capAmt = big.NewInt(100)
+	case 3:
+		if capAmt.Cmp(big.NewInt(1)) > 0 {
+			capAmt.Sub(capAmt, big.NewInt(1)) // just below the price: the module's provider is not eligible
+		}
+	}
+	outcome := strings.Split(g.pickStr(respondOutcomes), " ")
+	d := newDraft("modcall")
+	d.set("tx", hx(g.nextTx())).set("idx", itoa([]int64{0, 0, 1}[g.r.Intn(3)])).
+		set("svc", reservedSvc).set("provs", hx(g.oneOf(providerAddrs))).set("cons", hx(g.pickConsumer())).
+		set("cap", capAmt.String()).set("timeout", itoa(1+g.r.Int63n(3))).
+		set("super", bit(g.pct(10))).set("rep", "0").set("freq", "0").set("total", "0").
+		set("input", "ok").set("mscode", outcome[0]).set("msout", outcome[1])
+	if adv {
+		switch g.r.Intn(5) {
+		case 0:
+			d.set("input", "bad")
+		case 1:
+			d.set("cons", hx(strangerAddr)) // a consumer without funds
+		case 2:
+			d.set("cap", []string{"0", "-"}[g.r.Intn(2)])
+		case 3:
+			d.set("timeout", "0") // rejected statelessly although the handler would ignore it
+		case 4:
+			d.set("mscode", "200").set("msout", "absent") // an answer a provider could not send as a message
+		}
 	}
 	return d, true
 }
@@ -1838,6 +1903,20 @@ func generateHistory(seed int64, index int, prof *profile, nOps int, path string
 	for i, c := range consumerAddrs {
 		if amt := balances[perm[i]]; amt > 0 {
 			if err := step(fmt.Sprintf("fund acct=%s amt=%d", hx(c), amt)); err != nil {
+				return nil, err
+			}
+		}
+	}
+
+	if prof.modsvcBind && g.hp.modsvc {
+		mp := hx(modSvcProvider)
+		price := []string{"1stake", "2stake", "5stake", "9stake", "30stake"}[g.r.Intn(5)]
+		for _, line := range []string{
+			fmt.Sprintf("fund acct=%s amt=%d", mp, ownerFunds),
+			fmt.Sprintf("define name=%s author=%s schema=ok", reservedSvc, hx(ownerAddrs[0])),
+			fmt.Sprintf("modbind svc=%s prov=%s owner=%s dep=%d price=%s promT=- promV=- qos=1", reservedSvc, mp, mp, ownerFunds/2, price),
+		} {
+			if err := step(line); err != nil {
 				return nil, err
 			}
 		}
